@@ -98,6 +98,12 @@ pub fn iter_all<I: Iterator, F: FnMut(I::Item) -> bool>(it: I, f: F) -> (r: bool
 pub assume_specification<T: PartialEq>[ <[T]>::contains ](s: &[T], x: &T) -> (r: bool)
     ensures <T as PartialEqSpec>::obeys_eq_spec() ==> r == (exists|i: int| 0 <= i < s@.len() && PartialEqSpec::eq_spec(&#[trigger] s@[i], x));
 
+pub assume_specification<T: Clone>[ <[T]>::to_vec ](s: &[T]) -> (r: Vec<T>)
+    ensures r@.len() == s@.len(), forall|i: int| 0 <= i < s@.len() ==> cloned::<T>(#[trigger] s@[i], r@[i]);
+
+pub assume_specification<T, A: core::alloc::Allocator>[ <Vec<T, A> as AsRef<[T]>>::as_ref ](v: &Vec<T, A>) -> (r: &[T])
+    ensures r@ == v@;
+
 // BTreeSet::last = the greatest element
 pub assume_specification<T: Ord, A: core::alloc::Allocator + Clone>[ BTreeSet::<T, A>::last ](s: &BTreeSet<T, A>) -> (r: Option<&T>)
     ensures key_obeys_cmp_spec::<T>() ==> (s@.len() == 0 ==> r is None)
